@@ -421,3 +421,30 @@ def rasterise(doc, cells, origin=(0.0, 0.0)):
             else:
                 problems.append('segment outside the page at row %d col %d' % (rr, c))
     return grid, problems
+
+
+def paint_grid(doc, cells, origin=(0.0, 0.0)):
+    """grid[r][c] = list of (colour, opacity) of the stroked segments covering module-grid cell (r, c);
+    returns (grid, problems)."""
+    u = doc.unit
+    ox, oy = origin
+    grid = [[[] for _ in range(cells)] for _ in range(cells)]
+    problems = []
+    for (x1, y1, x2, y2, lw, colour, op) in doc.segs:
+        if abs(y1 - y2) > 1e-9 * max(1, abs(y1)):
+            problems.append('non-horizontal segment')
+            continue
+        if abs(lw - u) > 1e-9 * u:
+            problems.append('line width %r != module %r' % (lw, u))
+        r = (y1 - oy) / u - 0.5
+        c1, c2 = (min(x1, x2) - ox) / u, (max(x1, x2) - ox) / u
+        rr, a, b = round(r), round(c1), round(c2)
+        if abs(r - rr) > 1e-6 or abs(c1 - a) > 1e-6 or abs(c2 - b) > 1e-6:
+            problems.append('segment off the module grid: row %r cols %r..%r' % (r, c1, c2))
+            continue
+        for c in range(a, b):
+            if 0 <= rr < cells and 0 <= c < cells:
+                grid[rr][c].append((colour, op))
+            else:
+                problems.append('segment outside the page at row %d col %d' % (rr, c))
+    return grid, problems
